@@ -45,7 +45,28 @@ type Frame struct {
 	isTop bool
 }
 
+// pathFrame: the containers on a tree-form path below a root container (evaluated in the base heap)
+type pathFrame struct {
+	kind, root, tf string // kind "O" | "L"
+}
+
+// inPath: SMT condition "container r (implementation reference) lies on one of the path frames" in heap H
+func (fs *frameSet) inPath(H, r string) string {
+	if len(fs.paths) == 0 {
+		return "false"
+	}
+	var cs []string
+	for _, pf := range fs.paths {
+		cs = append(cs, fmt.Sprintf("(onPath%s %s %s %s %s)", pf.kind, H, pf.root, pf.tf, r))
+	}
+	if len(cs) == 1 {
+		return cs[0]
+	}
+	return "(or " + strings.Join(cs, " ") + ")"
+}
+
 type frameSet struct {
+	paths                          []pathFrame
 	lists, objs, cells, arrs, maps []string
 	all                            bool
 	tree                           bool // anything may change except identities (ptr fields, allocation kinds of existing objects)
@@ -949,6 +970,16 @@ func (x *Exec) addFrame(fs *frameSet, env *SpecEnv, e Expr) {
 			return
 		}
 	case *ECall:
+		if len(n.Args) == 2 && (n.Fn == "pathO" || n.Fn == "pathL") {
+			r, err1 := env.evalSV(n.Args[0])
+			t, err2 := env.evalSV(n.Args[1])
+			if err1 != nil || err2 != nil {
+				x.errorf("%s: assigns: %v %v", x.cur.ct.Func, err1, err2)
+				return
+			}
+			fs.paths = append(fs.paths, pathFrame{n.Fn[4:], r.T, t.T})
+			return
+		}
 		if len(n.Args) == 1 {
 			sv, err := env.evalSV(n.Args[0])
 			if err != nil {
@@ -1021,25 +1052,51 @@ func frameAxioms(fs *frameSet, Ha, Hb string) []string {
 		out = append(out, fmt.Sprintf("(forall ((r Int)) (! (=> (and (< r (next %s)) %s) (= (select (%s %s) r) (select (%s %s) r))) :pattern ((select (%s %s) r))))",
 			Ha, cond, comp, Hb, comp, Ha, comp, Hb))
 	}
+	offPath := "true"
+	if len(fs.paths) > 0 {
+		offPath = "(not " + fs.inPath(Ha, "r") + ")"
+	}
+	and2 := func(a, b string) string {
+		if b == "true" {
+			return a
+		}
+		if a == "true" {
+			return b
+		}
+		return "(and " + a + " " + b + ")"
+	}
 	for _, c := range []string{"Larr", "Loff", "Llen", "Lcap"} {
-		q(c, notIn("r", fs.lists))
+		q(c, and2(notIn("r", fs.lists), offPath))
 	}
 	q("Lptr", "true")
 	q("Optr", "true")
-	q("Omap", notIn("r", fs.objs))
+	q("Omap", and2(notIn("r", fs.objs), offPath))
 	var arrs []string
 	for _, l := range fs.lists {
 		arrs = append(arrs, fmt.Sprintf("(select (Larr %s) %s)", Ha, l))
 	}
 	arrs = append(arrs, fs.arrs...)
-	q("Mem", notIn("r", arrs))
 	var maps []string
 	for _, o := range fs.objs {
 		maps = append(maps, fmt.Sprintf("(select (Omap %s) %s)", Ha, o))
 	}
 	maps = append(maps, fs.maps...)
-	for _, c := range []string{"MDom", "MVal", "MCard"} {
-		q(c, notIn("r", maps))
+	if len(fs.paths) == 0 {
+		q("Mem", notIn("r", arrs))
+		for _, c := range []string{"MDom", "MVal", "MCard"} {
+			q(c, notIn("r", maps))
+		}
+	} else {
+		// which backing arrays / maps belong to containers on the path cannot be enumerated: the rows are
+		// framed per owner (every live list / object off the path keeps its own row), native storage as a whole
+		out = append(out, fmt.Sprintf("(forall ((r Int)) (! (=> (and (< r (next %s)) (= (select (Kind %s) r) KLIST) %s) (= (select (Mem %s) (select (Larr %s) r)) (select (Mem %s) (select (Larr %s) r)))) :pattern ((select (Mem %s) (select (Larr %s) r)))))",
+			Ha, Ha, and2(notIn("r", fs.lists), offPath), Hb, Ha, Ha, Ha, Hb, Ha))
+		out = append(out, fmt.Sprintf("(forall ((r Int)) (! (=> (and (< r (next %s)) (= (select (Kind %s) r) KNARR) %s) (= (select (Mem %s) r) (select (Mem %s) r))) :pattern ((select (Mem %s) r))))", Ha, Ha, notIn("r", arrs), Hb, Ha, Hb))
+		for _, c := range []string{"MDom", "MVal", "MCard"} {
+			out = append(out, fmt.Sprintf("(forall ((r Int)) (! (=> (and (< r (next %s)) (= (select (Kind %s) r) KOBJ) %s) (= (select (%s %s) (select (Omap %s) r)) (select (%s %s) (select (Omap %s) r)))) :pattern ((select (%s %s) (select (Omap %s) r)))))",
+				Ha, Ha, and2(notIn("r", fs.objs), offPath), c, Hb, Ha, c, Ha, Ha, c, Hb, Ha))
+			out = append(out, fmt.Sprintf("(forall ((r Int)) (! (=> (and (< r (next %s)) (= (select (Kind %s) r) KNMAP) %s) (= (select (%s %s) r) (select (%s %s) r))) :pattern ((select (%s %s) r))))", Ha, Ha, notIn("r", maps), c, Hb, c, Ha, c, Hb))
+		}
 	}
 	for _, c := range []string{"CInt", "CBool", "CVal", "CStr", "CF64"} {
 		q(c, notIn("r", fs.cells))
@@ -1094,6 +1151,9 @@ func (x *Exec) frameCheck1(p *Path, fs *frameSet, base, tag, kind, id string, in
 	cs := []string{fmt.Sprintf("(>= %s (next %s))", id, base)}
 	for _, s := range set {
 		cs = append(cs, fmt.Sprintf("(= %s %s)", id, s))
+	}
+	if len(fs.paths) > 0 && (kind == "list" || kind == "obj" || kind == "list-or-obj") {
+		cs = append(cs, fs.inPath(base, id))
 	}
 	goal := cs[0]
 	if len(cs) > 1 {
@@ -1387,7 +1447,7 @@ func (x *Exec) loopEdge(p *Path, li *loopInfo, from *ssa.BasicBlock, phis []*ssa
 			p.assume(ax)
 		}
 		x.seedFrame(p, lf, base, hb)
-		if !lf.all && !lf.tree && len(lf.lists)+len(lf.objs)+len(lf.arrs)+len(lf.maps) == 0 {
+		if !lf.all && !lf.tree && len(lf.lists)+len(lf.objs)+len(lf.arrs)+len(lf.maps)+len(lf.paths) == 0 {
 			p.assume(fmt.Sprintf("(ext %s %s)", base, hb))
 		}
 		p.anchors = nil
@@ -1739,6 +1799,9 @@ func (x *Exec) seedFrame(p *Path, fs *frameSet, base, hb string) {
 			for _, s := range set {
 				cs = append(cs, fmt.Sprintf("(not (= %s %s))", v.T, s))
 			}
+			if len(fs.paths) > 0 && set != nil {
+				cs = append(cs, "(not "+fs.inPath(base, v.T)+")")
+			}
 			return "(and " + strings.Join(cs, " ") + ")"
 		}
 		emit := func(comps []string, cond string) {
@@ -1764,6 +1827,9 @@ func (x *Exec) seedFrame(p *Path, fs *frameSet, base, hb string) {
 			}
 			for _, a := range fs.arrs {
 				conds = append(conds, fmt.Sprintf("(not (= %s %s))", arr, a))
+			}
+			if len(fs.paths) > 0 {
+				conds = append(conds, "(not "+fs.inPath(base, v.T)+")", fmt.Sprintf("(= (select (Kind %s) %s) KLIST)", base, v.T))
 			}
 			p.assume(fmt.Sprintf("(=> (and %s) (= (select (Mem %s) %s) (select (Mem %s) %s)))", strings.Join(conds, " "), hb, arr, base, arr))
 		}
